@@ -13,21 +13,17 @@ namespace Twig
 
 /-- the context built for the included template before the `with` variables are added
     (`IncludeNode.Render`: `Clone` of the current context for a plain include; a fresh context for
-    `only` / `sandboxed`, holding a copy of the top-level variable map unless `only`) -/
+    `only` / `sandboxed`, holding a flattened copy of every variable the includer can see — `Ctx.visibleVars` — unless `only`) -/
 def includeBase (E : Env) (c : Ctx) (only sandboxed : Bool) : Ctx :=
   if !only && !sandboxed then
     { vars := [], macros := c.macros, parents := c.asScope :: c.parents, sandboxed := c.sandboxed, inside := c.inside }
   else
-    freshCtx (if only then [] else c.vars) (sandboxed || (E.F.propIncludeFresh && c.sandboxed)) (sandboxed || c.inside)
+    freshCtx (if only then [] else c.visibleVars) (sandboxed || (E.F.propIncludeFresh && c.sandboxed)) (sandboxed || c.inside)
 
 /-- … and with them: of several `with` entries of one name only the last is kept (`dedupLast`) -/
 def includeCtx (E : Env) (c : Ctx) (names : List Bytes) (exprs : List Expr) (only sandboxed : Bool)
     (vals : List Val) : Ctx :=
   setAll (includeBase E c only sandboxed) (dedupLast names exprs).1 vals
-
-/-- the case the model does not cover (see the report): `sandboxed` without `only` from a context that has
-    a parent chain — the Go code copies only the top-level map there -/
-def includeGap (c : Ctx) (only sandboxed : Bool) : Bool := sandboxed && !only && !c.parents.isEmpty
 
 /-! ## unfolding the node -/
 
@@ -49,15 +45,14 @@ theorem C11_name_not_string {E : Env} {go : Go} {tpl : Bytes} {te names exprs im
 theorem C11_include_found {E : Env} {go : Go} {tpl : Bytes} {te names exprs im only sb} {st st1 st2 : St}
     {nv : Val} {name : Bytes} {nodes : List Node} {vals : List Val}
     (h1 : evalExpr E te st = .ok (nv, st1)) (h2 : toStr nv = .ok name) (h3 : isRelative name = false)
-    (h4 : E.tpl? name = some nodes) (h5 : includeGap st1.ctx only sb = false)
+    (h4 : E.tpl? name = some nodes)
     (h6 : (sb && !E.hasPolicy) = false)
     (h7 : evalArgs E (dedupLast names exprs).2 st1 = .ok (vals, st2)) :
     renderNode E go tpl (.include te names exprs im only sb) st =
       (go (.root name) { st2 with ctx := includeCtx E st1.ctx names exprs only sb vals } >>= fun z =>
         .ok (z.1, { z.2 with ctx := st2.ctx })) := by
   obtain ⟨ch, hx⟩ := evalExpr_ok_iff.mp h1
-  unfold includeGap at h5
-  simp only [renderNode, hx, ok_bind, h2, h3, h4, h5, h6, h7, Bool.false_eq_true, if_false, pure_eq_ok,
+  simp only [renderNode, hx, ok_bind, h2, h3, h4, h6, h7, Bool.false_eq_true, if_false, pure_eq_ok,
     includeCtx, includeBase]
 
 /-! ## non-interference -/
@@ -85,24 +80,22 @@ theorem C11_non_interference {E : Env} {go : Go} {tpl : Bytes} {te : Expr} {name
       · cases h
     · split at h
       · cases h
-      · split at h
-        · cases h
-        · obtain ⟨⟨vals, st2⟩, h2, h⟩ := bind_ok h
-          obtain ⟨⟨o, st3⟩, _, h⟩ := bind_ok h
-          cases h
-          exact (evalArgs_ctx E _ h2).trans i1
+      · obtain ⟨⟨vals, st2⟩, h2, h⟩ := bind_ok h
+        obtain ⟨⟨o, st3⟩, _, h⟩ := bind_ok h
+        cases h
+        exact (evalArgs_ctx E _ h2).trans i1
 
 /-- the same, split as in the statement of the property: the context after the node is the one after
     evaluating the name and the `with` expressions (`st2`), and evaluating expressions changes no context -/
 theorem C11_non_interference_steps {E : Env} {go : Go} {tpl : Bytes} {te names exprs im only sb} {st st1 st2 : St}
     {nv : Val} {name : Bytes} {nodes : List Node} {vals : List Val} {out : Bytes} {st' : St}
     (h1 : evalExpr E te st = .ok (nv, st1)) (h2 : toStr nv = .ok name) (h3 : isRelative name = false)
-    (h4 : E.tpl? name = some nodes) (h5 : includeGap st1.ctx only sb = false)
+    (h4 : E.tpl? name = some nodes)
     (h6 : (sb && !E.hasPolicy) = false)
     (h7 : evalArgs E (dedupLast names exprs).2 st1 = .ok (vals, st2))
     (h : renderNode E go tpl (.include te names exprs im only sb) st = .ok (out, st')) :
     st'.ctx = st2.ctx ∧ st2.ctx = st1.ctx ∧ st1.ctx = st.ctx := by
-  rw [C11_include_found h1 h2 h3 h4 h5 h6 h7] at h
+  rw [C11_include_found h1 h2 h3 h4 h6 h7] at h
   obtain ⟨⟨o, st3⟩, _, h⟩ := bind_ok h
   cases h
   exact ⟨rfl, evalArgs_ctx E _ h7, evalExpr_ctx h1⟩
@@ -141,36 +134,34 @@ theorem C11_missing_reported {E : Env} {go : Go} {tpl : Bytes} {te names exprs o
 theorem C11_existing_failure_reported {E : Env} {go : Go} {tpl : Bytes} {te names exprs im only sb} {st st1 st2 : St}
     {nv : Val} {name : Bytes} {nodes : List Node} {vals : List Val} {err : Err}
     (h1 : evalExpr E te st = .ok (nv, st1)) (h2 : toStr nv = .ok name) (h3 : isRelative name = false)
-    (h4 : E.tpl? name = some nodes) (h5 : includeGap st1.ctx only sb = false)
+    (h4 : E.tpl? name = some nodes)
     (h6 : (sb && !E.hasPolicy) = false)
     (h7 : evalArgs E (dedupLast names exprs).2 st1 = .ok (vals, st2))
     (hgo : go (.root name) { st2 with ctx := includeCtx E st1.ctx names exprs only sb vals } = .error err) :
     renderNode E go tpl (.include te names exprs im only sb) st = .error err := by
-  rw [C11_include_found h1 h2 h3 h4 h5 h6 h7, hgo]; rfl
+  rw [C11_include_found h1 h2 h3 h4 h6 h7, hgo]; rfl
 
 /-- (2) a failing `with` expression -/
 theorem C11_with_failure_reported {E : Env} {go : Go} {tpl : Bytes} {te names exprs im only sb} {st st1 : St}
     {nv : Val} {name : Bytes} {nodes : List Node} {err : Err}
     (h1 : evalExpr E te st = .ok (nv, st1)) (h2 : toStr nv = .ok name) (h3 : isRelative name = false)
-    (h4 : E.tpl? name = some nodes) (h5 : includeGap st1.ctx only sb = false)
+    (h4 : E.tpl? name = some nodes)
     (h6 : (sb && !E.hasPolicy) = false)
     (h7 : evalArgs E (dedupLast names exprs).2 st1 = .error err) :
     renderNode E go tpl (.include te names exprs im only sb) st = .error err := by
   obtain ⟨ch, hx⟩ := evalExpr_ok_iff.mp h1
-  unfold includeGap at h5
-  simp only [renderNode, hx, ok_bind, h2, h3, h4, h5, h6, h7, Bool.false_eq_true, if_false]
+  simp only [renderNode, hx, ok_bind, h2, h3, h4, h6, h7, Bool.false_eq_true, if_false]
   rfl
 
 /-- (3) `sandboxed` without a security policy -/
 theorem C11_sandboxed_without_policy {E : Env} {go : Go} {tpl : Bytes} {te names exprs im only} {st st1 : St}
     {nv : Val} {name : Bytes} {nodes : List Node}
     (h1 : evalExpr E te st = .ok (nv, st1)) (h2 : toStr nv = .ok name) (h3 : isRelative name = false)
-    (h4 : E.tpl? name = some nodes) (h5 : includeGap st1.ctx only true = false) (h6 : E.hasPolicy = false) :
+    (h4 : E.tpl? name = some nodes) (h6 : E.hasPolicy = false) :
     renderNode E go tpl (.include te names exprs im only true) st =
       rerr "cannot use sandboxed include without a security policy" := by
   obtain ⟨ch, hx⟩ := evalExpr_ok_iff.mp h1
-  unfold includeGap at h5
-  simp only [renderNode, hx, ok_bind, h2, h3, h4, h5, h6, Bool.false_eq_true, if_false]
+  simp only [renderNode, hx, ok_bind, h2, h3, h4, h6, Bool.false_eq_true, if_false]
   simp
   
 /-- (4) failure of the name expression or of its conversion to a string: `C11_name_error`,
@@ -200,12 +191,10 @@ theorem C11_ignore_missing_only_missing {E : Env} {go : Go} {tpl : Bytes} {te na
     · rename_i nodes hsome
       split at h
       · cases h
-      · split at h
-        · cases h
-        · obtain ⟨⟨vals, st2⟩, h7, h⟩ := bind_ok h
-          obtain ⟨⟨o, st3⟩, hgo, h⟩ := bind_ok h
-          cases h
-          exact .inr ⟨nodes, vals, st2, st3, hsome, h7, hgo⟩
+      · obtain ⟨⟨vals, st2⟩, h7, h⟩ := bind_ok h
+        obtain ⟨⟨o, st3⟩, hgo, h⟩ := bind_ok h
+        cases h
+        exact .inr ⟨nodes, vals, st2, st3, hsome, h7, hgo⟩
 
 /-! ## visibility: what the included template can read -/
 
@@ -297,6 +286,11 @@ theorem lookupLast_none_of_not_contains {α} (k : Bytes) : ∀ (ns : List Bytes)
     have : (n == k) = false := by
       rw [beq_eq_false_iff_ne] at h ⊢; exact fun e => h.1 e.symm
     simp [this]
+
+theorem hasVar_setAll (k : Bytes) (ns : List Bytes) (vs : List Val) (c : Ctx) :
+    (setAll c ns vs).hasVar k = ((lookupLast k ns vs).isSome || c.hasVar k) := by
+  simp only [Ctx.hasVar, getKV_setAll k ns vs c, (setAll_frame ns vs c).2.1]
+  cases lookupLast k ns vs <;> simp
 
 /-- `dedupLast` keeps, for every name, exactly its **last** entry: every lookup is unchanged … -/
 theorem lookupLast_dedupLast (k : Bytes) : ∀ (ns : List Bytes) (es : List Expr),
@@ -404,27 +398,129 @@ theorem C11_visibility_plain (E : Env) (c : Ctx) (names : List Bytes) (exprs : L
     simp only [Ctx.getMacro, scopesMacro, Ctx.asScope]
     cases getKV k c.macros <;> rfl
 
-/-- **`sandboxed` without `only`**, from a context without parent chain (the modelled case, see
-    `C11_sandboxed_gap_unsupported`): `with` variables override, every other name reads as in the includer;
-    the includer's macros are *not* visible; the sandbox flag is on. -/
-theorem C11_visibility_sandboxed (E : Env) (c : Ctx) (names : List Bytes) (exprs : List Expr) (vals : List Val)
-    (hp : c.parents = []) :
+/-! ### `Ctx.visibleVars`: the flattened copy reads exactly like the scope chain -/
+
+theorem getKV_setKV (k n : Bytes) (v : Val) (kvs : List (Bytes × Val)) :
+    getKV k (setKV n v kvs) = if n == k then some v else getKV k kvs := by
+  by_cases h : n = k
+  · subst h; simp [getKV_setKV_same]
+  · have : (n == k) = false := by simpa using h
+    simp only [this, Bool.false_eq_true, if_false]
+    exact getKV_setKV_ne n k v kvs (Ne.symm h)
+
+theorem getKV_cons (k : Bytes) (p : Bytes × Val) (r : List (Bytes × Val)) :
+    getKV k (p :: r) = if p.1 == k then some p.2 else getKV k r := by
+  simp only [getKV, List.find?]
+  cases p.1 == k <;> rfl
+
+/-- laying the entries of `kvs` (first entry last, so it wins) over `base` -/
+theorem getKV_overlay (k : Bytes) (kvs base : List (Bytes × Val)) :
+    getKV k (kvs.reverse.foldl (fun acc kv => setKV kv.1 kv.2 acc) base) =
+      (match getKV k kvs with | some v => some v | none => getKV k base) := by
+  rw [List.foldl_reverse]
+  induction kvs with
+  | nil => rfl
+  | cons p r ih =>
+    simp only [List.foldr_cons, getKV_setKV, getKV_cons]
+    cases p.1 == k with
+    | true => rfl
+    | false => simpa using ih
+
+/-- first hit along the parent chain, as an option -/
+def scopesGet (k : Bytes) : List Scope → Option Val
+  | [] => none
+  | s :: r => match getKV k s.vars with
+    | some v => some v
+    | none => scopesGet k r
+
+theorem scopesGet_getD (k : Bytes) : ∀ ps : List Scope, (scopesGet k ps).getD .null = scopesVar k ps
+  | [] => rfl
+  | s :: r => by
+    simp only [scopesGet, scopesVar]
+    cases getKV k s.vars with
+    | some v => rfl
+    | none => exact scopesGet_getD k r
+
+theorem scopesGet_isSome (k : Bytes) : ∀ ps : List Scope,
+    (scopesGet k ps).isSome = ps.any (fun s => (getKV k s.vars).isSome)
+  | [] => rfl
+  | s :: r => by
+    simp only [scopesGet, List.any_cons]
+    cases getKV k s.vars with
+    | some v => rfl
+    | none => simpa using scopesGet_isSome k r
+
+theorem getKV_parentsFlat (k : Bytes) : ∀ ps : List Scope,
+    getKV k (ps.reverse.foldl
+      (fun acc s => s.vars.reverse.foldl (fun acc' kv => setKV kv.1 kv.2 acc') acc) []) = scopesGet k ps := by
+  intro ps
+  rw [List.foldl_reverse]
+  induction ps with
+  | nil => rfl
+  | cons s r ih =>
+    simp only [List.foldr_cons, scopesGet]
+    rw [getKV_overlay, ih]
+
+/-- **The flattened copy has, for every name, exactly the entry the scope chain gives**: own map first, then
+    the parents from the innermost outwards. -/
+theorem getKV_visibleVars (c : Ctx) (k : Bytes) :
+    getKV k c.visibleVars = (match getKV k c.vars with | some v => some v | none => scopesGet k c.parents) := by
+  unfold Ctx.visibleVars
+  rw [getKV_overlay, getKV_parentsFlat]
+
+/-- reading a name in the copy = `GetVariable` in the includer … -/
+theorem getVar_visibleVars (c : Ctx) (k : Bytes) : (getKV k c.visibleVars).getD .null = c.getVar k := by
+  rw [getKV_visibleVars]
+  simp only [Ctx.getVar]
+  cases getKV k c.vars with
+  | some v => rfl
+  | none => exact scopesGet_getD k c.parents
+
+/-- … and definedness likewise (`hasVariable`) -/
+theorem hasVar_visibleVars (c : Ctx) (k : Bytes) : (getKV k c.visibleVars).isSome = c.hasVar k := by
+  rw [getKV_visibleVars]
+  simp only [Ctx.hasVar]
+  cases getKV k c.vars with
+  | some v => rfl
+  | none => simpa using scopesGet_isSome k c.parents
+
+/-- **`sandboxed` without `only`** (every includer context, with or without a parent chain): the included
+    template reads a `with` variable if one is bound to the name, otherwise **exactly what the includer
+    reads** — same value (`getVar`) and same definedness (`hasVar`), through the includer's whole scope
+    chain; it has no parent chain of its own (a flattened copy), the includer's macros are *not* visible,
+    and the sandbox flag is on. -/
+theorem C11_visibility_sandboxed (E : Env) (c : Ctx) (names : List Bytes) (exprs : List Expr) (vals : List Val) :
     ∀ ic, ic = includeCtx E c names exprs false true vals →
     (∀ k, ic.getVar k = (match lookupLast k (dedupLast names exprs).1 vals with
                           | some v => v
                           | none => c.getVar k)) ∧
-    (∀ k, ic.getMacro k = none) ∧ ic.sandboxed = true ∧ ic.inside = true ∧ ic.parents = [] := by
+    (∀ k, ic.hasVar k = ((lookupLast k (dedupLast names exprs).1 vals).isSome || c.hasVar k)) ∧
+    (∀ k, ic.getMacro k = none) ∧ ic.sandboxed = true ∧ ic.inside = true ∧ ic.parents = [] ∧
+    ic.blockDefs = [] := by
   intro ic hic
   subst hic
   unfold includeCtx
-  have hb : includeBase E c false true = freshCtx c.vars true true := by simp [includeBase]
+  have hb : includeBase E c false true = freshCtx c.visibleVars true true := by simp [includeBase]
   have hf := setAll_frame (dedupLast names exprs).1 vals (includeBase E c false true)
-  refine ⟨?_, ?_, by rw [hf.2.2.1, hb]; rfl, by rw [hf.2.2.2.1, hb]; rfl, by rw [hf.2.1, hb]; rfl⟩
+  have hpar : (setAll (includeBase E c false true) (dedupLast names exprs).1 vals).parents = [] := by
+    rw [hf.2.1, hb]; rfl
+  refine ⟨?_, ?_, ?_, by rw [hf.2.2.1, hb]; rfl, by rw [hf.2.2.2.1, hb]; rfl, hpar,
+    by rw [hf.2.2.2.2, hb]; rfl⟩
   · intro k
     rw [getVar_setAll, hb]
     cases lookupLast k (dedupLast names exprs).1 vals with
     | some v => rfl
-    | none => simp only [Ctx.getVar, freshCtx, hp]
+    | none =>
+      have : (freshCtx c.visibleVars true true).getVar k = (getKV k c.visibleVars).getD .null := by
+        simp only [Ctx.getVar, freshCtx, scopesVar]
+        cases getKV k c.visibleVars <;> rfl
+      show (freshCtx c.visibleVars true true).getVar k = c.getVar k
+      rw [this, getVar_visibleVars]
+  · intro k
+    rw [hasVar_setAll, hb]
+    have : (freshCtx c.visibleVars true true).hasVar k = (getKV k c.visibleVars).isSome := by
+      simp [Ctx.hasVar, freshCtx]
+    rw [this, hasVar_visibleVars]
   · intro k
     rw [getMacro_setAll, hb]; rfl
 
@@ -438,27 +534,6 @@ theorem C11_with_last_wins (names : List Bytes) (exprs : List Expr) :
       vals.length = (dedupLast names exprs).1.length) :=
   ⟨dedupLast_nodup names exprs, dedupLast_length names exprs, fun k => lookupLast_dedupLast k names exprs,
    fun _ _ _ _ h => (evalArgs_length h).trans (dedupLast_length names exprs).symm⟩
-
-/-- **The read-access gap (documented, not hidden).** `include … sandboxed` without `only`, executed in a
-    context that has a parent chain (i.e. inside an included template or a macro), is outside the model:
-    the Go code builds the fresh context from the *top-level* variable map only, so variables that the
-    includer itself only sees through its parent chain are not readable in the included template.  The
-    model reports `unsupported` (the harness skips these cases); the visibility theorems above do not
-    cover them.  Non-interference (`C11_non_interference`) holds for them vacuously in the model. -/
-theorem C11_sandboxed_gap_unsupported {E : Env} {go : Go} {tpl : Bytes} {te names exprs im only sb} {st st1 : St}
-    {nv : Val} {name : Bytes} {nodes : List Node}
-    (h1 : evalExpr E te st = .ok (nv, st1)) (h2 : toStr nv = .ok name) (h3 : isRelative name = false)
-    (h4 : E.tpl? name = some nodes) (h5 : includeGap st1.ctx only sb = true) :
-    renderNode E go tpl (.include te names exprs im only sb) st =
-      unsup "sandboxed include without only from a context with a parent chain copies the top-level map only" := by
-  obtain ⟨ch, hx⟩ := evalExpr_ok_iff.mp h1
-  unfold includeGap at h5
-  simp only [renderNode, hx, ok_bind, h2, h3, h4, h5, Bool.false_eq_true, if_false, if_true]
-
-/-- the gap is exactly: `sandboxed`, not `only`, parent chain non-empty -/
-theorem C11_gap_iff (c : Ctx) (only sb : Bool) :
-    includeGap c only sb = true ↔ sb = true ∧ only = false ∧ c.parents ≠ [] := by
-  cases sb <;> cases only <;> cases h : c.parents <;> simp [includeGap, h]
 
 /-! ## at the top level: `go` is the fuel-indexed `run`, the included template is rendered by `renderRoot` -/
 
@@ -513,13 +588,13 @@ example : renderDemo "{% include 'x' %}{{ m(2) }}" [] [("x", "{% macro m(x) %}<{
 example : renderDemoAst { tpls := [(b "main", [.include (.str (b "b")) [] [] false false true]),
       (b "b", [.print (.var (b "v"))])], hasPolicy := true } [(b "v", .int 5)] = some (.inl (b "5")) := by
   decide +kernel
--- the gap: sandboxed include without only, executed inside an included template
-example : renderDemoAst { tpls := [(b "main", [.include (.str (b "a")) [] [] false false false]),
-      (b "a", [.include (.str (b "b")) [] [] false false true]), (b "b", [])], hasPolicy := true } [] =
-    some (.inr "sandboxed include without only from a context with a parent chain copies the top-level map only") := by
+-- the former read-access gap (fixed in Go and in the model): a sandboxed include without `only`, executed
+-- inside an included template, reads the variables its includer sees through the parent chain
+example : renderDemoAst { tpls := [
+      (b "main", [.setN (b "v") (.int 1), .include (.str (b "a")) [] [] false false false]),
+      (b "a", [.text (b "["), .print (.var (b "v")), .text (b "]"), .include (.str (b "b")) [] [] false false true]),
+      (b "b", [.text (b "<"), .print (.var (b "v")), .text (b ">")])], hasPolicy := true } [] =
+    some (.inl (b "[1]<1>")) := by
   decide +kernel
--- the gap predicate and its complement are both inhabited
-example : includeGap { parents := [⟨[], []⟩] } false true = true ∧ includeGap {} false true = false ∧
-    includeGap { parents := [⟨[], []⟩] } true true = false := by decide
 
 end Twig
